@@ -177,7 +177,7 @@ func fmtArgs(a []cty.Value, attr string) string {
 }
 
 func (Driver) Run(c *core.Ctx) {
-	n := int64(c.N(12000, 600000))
+	n := int64(c.N(30000, 600000))
 	for i := int64(0); i < n; i++ {
 		if !c.Want(i) {
 			continue
